@@ -308,7 +308,7 @@ def run(ctx):
     quick = ctx.tier == 'quick'
     jobs = []
     W = list(write_shapes())
-    lens1 = [0, 1, 3] if quick else [0, 1, 2, 3, 5, 8]
+    lens1 = [0, 1, 4] if quick else [0, 1, 2, 3, 4, 5, 8]   # 4 = length of the zstd magic number: values that look like frames
     for strategy in ('SetGetOnly', 'AllowAll', 'Disabled'):
         for w in W:
             nv = NVALS.get(w, 1)
@@ -319,7 +319,7 @@ def run(ctx):
                 if w.upper().startswith(('GETSET', 'SETNX', 'SET K V NX', 'MSETNX')) and strategy != 'Disabled':
                     jobs.append({'kind': 'rt', 'strategy': strategy, 'write': w, 'lens': [2], 'old': 1, 'reads': ['GET', 'MGET']})
             else:
-                combos = [[1, 0, 2][:nv], [0, 3, 1][:nv]] if quick else [[1, 0, 2][:nv], [0, 3, 1][:nv], [2, 2, 2][:nv], [5, 1, 0][:nv]]
+                combos = [[1, 0, 2][:nv], [0, 4, 1][:nv]] if quick else [[1, 0, 2][:nv], [0, 4, 1][:nv], [2, 2, 2][:nv], [5, 1, 0][:nv], [4, 4, 4][:nv]]
                 for lens in (combos if strategy != 'Disabled' else combos[:1]):
                     jobs.append({'kind': 'rt', 'strategy': strategy, 'write': w, 'lens': lens, 'reads': reads})
                 if w.upper().startswith('MSETNX') and strategy == 'SetGetOnly':
